@@ -3,6 +3,7 @@ package main
 // DP-imp — the statistics maps a merge exempts from the clean-up are the ones it merged (C06).
 
 import (
+	"fmt"
 	"go/ast"
 	"go/token"
 	"go/types"
@@ -323,6 +324,137 @@ one record; (2) it has a clause for float64 that does not go through fmt.Sprint 
 				s.Pass(nil, k2, nd.Pos(), "an integral float64 gives the text of the integer")
 			} else {
 				s.Fail(nil, k2, nd.Pos(), "a float64 is written by fmt: 2759204 held as a float64 gives 2.759204e+06, held as an int or written by the writers 2759204 — obiuniq --in-memory -c taxid outputs two records with the same key")
+			}
+		},
+	})
+}
+
+func init() {
+	register(&Rule{
+		ID: "CTX-2", Props: []string{"C06"}, Min: 3,
+		Doc: `the statistics maps and the merge use the text the classifiers use, for every kind of value. In pkg/obiseq.(*BioSequence).StatsPlusOne (1) the key under which a value is counted is not
+produced by a function of package fmt (fmt.Sprint(int(v)) of a float64 >= 2^63 is -9223372036854775808: -m s pooled 1e19 and 2e19 under that key while -c s kept them apart); (2) the value is not
+looked up under a test of HasAnnotation() of the record: GetAttribute also answers for the identifier, the sequence and the like of a record without any annotation, and obiuniq -m id filed such
+records under NA (merged_id {"NA":2,"a":1}, another map for the reversed input). In Merge (3) every comparison of two annotation values that guards a delete goes through the classifiers'
+normaliser, the branch of the non-scalar values included (reflect.DeepEqual alone deleted the category attribute of a class whose members hold the same value under two Go types).`,
+		Run: func(c *Ctx, s *Sink) {
+			fd, p := c.FindFunc("pkg/obiseq", "(*BioSequence).StatsPlusOne")
+			if fd == nil {
+				s.Undecided(nil, "pkg/obiseq.(*BioSequence).StatsPlusOne", 0, "function not found")
+				return
+			}
+			info := p.TypesInfo
+			key := "pkg/obiseq.(*BioSequence).StatsPlusOne:key-text-not-by-fmt"
+			bad := token.NoPos
+			ast.Inspect(fd.Body, func(n ast.Node) bool {
+				as, ok := n.(*ast.AssignStmt)
+				if !ok || len(as.Rhs) != 1 {
+					return true
+				}
+				if b, ok := info.TypeOf(as.Lhs[0]).(*types.Basic); !ok || b.Kind() != types.String {
+					return true
+				}
+				if call, ok := ast.Unparen(as.Rhs[0]).(*ast.CallExpr); ok {
+					if f := callee(info, call); f != nil && f.Pkg() != nil && f.Pkg().Path() == "fmt" && !bad.IsValid() {
+						bad = call.Pos()
+					}
+				}
+				return true
+			})
+			if bad.IsValid() {
+				s.Fail(nil, key, bad, "the key of the statistics map is written by fmt (fmt.Sprint(int(v)) for a float64): another text than the one the classifiers give to the same value — 1e19 and 2e19 are both counted under -9223372036854775808 by -m while -c classifies them as 1e+19 and 2e+19")
+			} else {
+				s.Pass(nil, key, fd.Pos(), "the key of the statistics map never comes from package fmt")
+			}
+			key = "pkg/obiseq.(*BioSequence).StatsPlusOne:lookup-not-under-HasAnnotation"
+			bad = token.NoPos
+			ast.Inspect(fd.Body, func(n ast.Node) bool {
+				ifs, ok := n.(*ast.IfStmt)
+				if !ok || !strings.Contains(types.ExprString(ifs.Cond), "HasAnnotation()") {
+					return true
+				}
+				ast.Inspect(ifs.Body, func(m ast.Node) bool {
+					if call, ok := m.(*ast.CallExpr); ok {
+						if f := callee(info, call); f != nil && f.Name() == "GetAttribute" && !bad.IsValid() {
+							bad = call.Pos()
+						}
+					}
+					return true
+				})
+				return true
+			})
+			if bad.IsValid() {
+				s.Fail(nil, key, bad, "the value is looked up only when the record has annotations, although GetAttribute answers for id, sequence … without any: obiuniq -m id on three records without annotation gives merged_id {\"NA\":2,\"a\":1} ({\"NA\":2,\"c\":1} for the reversed input) instead of {a:1,b:1,c:1}")
+			} else {
+				s.Pass(nil, key, fd.Pos(), "the value is looked up whatever the record holds")
+			}
+			// (3)
+			mfd, mp := c.FindFunc("pkg/obiseq", "(*BioSequence).Merge")
+			key = "pkg/obiseq.(*BioSequence).Merge:every-delete-guard-normalised"
+			if mfd == nil {
+				s.Undecided(nil, key, 0, "Merge not found")
+				return
+			}
+			minfo := mp.TypesInfo
+			nsite := 0
+			bad = token.NoPos
+			ast.Inspect(mfd.Body, func(n ast.Node) bool {
+				ifs, ok := n.(*ast.IfStmt)
+				if !ok {
+					return true
+				}
+				deletes := false
+				for _, st := range ifs.Body.List {
+					if es, ok := st.(*ast.ExprStmt); ok {
+						if call, ok := es.X.(*ast.CallExpr); ok {
+							if id, ok := call.Fun.(*ast.Ident); ok && id.Name == "delete" {
+								deletes = true
+							}
+						}
+					}
+				}
+				if !deletes {
+					return true
+				}
+				// a comparison of two values: != between identifiers, or reflect.DeepEqual
+				compares, normalised := false, false
+				ast.Inspect(ifs.Cond, func(m ast.Node) bool {
+					switch x := m.(type) {
+					case *ast.BinaryExpr:
+						if x.Op == token.NEQ {
+							_, l := ast.Unparen(x.X).(*ast.Ident)
+							_, r := ast.Unparen(x.Y).(*ast.Ident)
+							if l && r {
+								compares = true
+							}
+						}
+					case *ast.CallExpr:
+						if f := callee(minfo, x); f != nil {
+							if fullName(f) == "reflect.DeepEqual" {
+								compares = true
+							}
+							if f.Pkg() != nil && rel(f.Pkg().Path()) == "pkg/obiseq" && len(x.Args) == 1 {
+								normalised = true
+							}
+						}
+					}
+					return true
+				})
+				if compares {
+					nsite++
+					if !normalised && !bad.IsValid() {
+						bad = ifs.Pos()
+					}
+				}
+				return true
+			})
+			switch {
+			case nsite == 0:
+				s.Undecided(nil, key, mfd.Pos(), "no comparison of two annotation values guarding a delete")
+			case bad.IsValid():
+				s.Fail(nil, key, bad, "a comparison of two annotation values deletes the attribute without consulting the text the classifiers compare: tag_count read from an OBI title (map[string]int) and from a JSON title (map[string]interface{}) are one class for -c tag_count and differ for reflect.DeepEqual — the merged record loses its category attribute in memory and keeps it on disk")
+			default:
+				s.Pass(nil, key, mfd.Pos(), fmt.Sprintf("%d comparison(s) guarding a delete, each through the classifiers' text", nsite))
 			}
 		},
 	})
